@@ -1278,6 +1278,11 @@ class Extractor:
             return AV(tuple(base.alias) + tuple(union(allargs).alias), kind=base.kind if name in ("view", "reshape", "ravel") else "container" if name in (
                 "items", "values", "keys") else None)
         if name in METH_FRESH:
+            if name in ("write", "writelines", "dump", "tofile") and union(allargs).alias and base.obj is None:
+                # ASSUMPTION made visible: the receiver's class is not known (e.g. lost at a control-flow join); the method is taken to
+                # be a file-like write that only reads its argument.  If it is an esutil writer (Recfile.write, SFile.write) its body
+                # is NOT in this skeleton: the alias trace of the dynamic run reports the locals of that body.
+                self.note("ASSUMED .%s() of a receiver of unknown class only reads its array argument" % name, e, fr)
             return AV(kind="index" if name in ("argsort", "nonzero", "searchsorted", "argmax", "argmin") else None)
         return self.conservative("method .%s()" % name, [base] + allargs, e, fr)
 
